@@ -5,6 +5,7 @@
 use std::io::{self, BufRead, Write};
 
 mod pure;
+mod smtp;
 
 pub fn hex(b: &[u8]) -> String {
     let mut s = String::with_capacity(b.len() * 2 + 1);
@@ -48,6 +49,11 @@ fn main() {
                     Err(_) => writeln!(out, "PANIC").unwrap(),
                 }
             }
+        }
+        "smtp" => {
+            std::panic::set_hook(Box::new(|_| {}));
+            let threads = args.get(2).and_then(|s| s.parse().ok()).unwrap_or(16);
+            smtp::main_loop(threads);
         }
         _ => {
             eprintln!("unknown mode {}", mode);
